@@ -108,7 +108,7 @@ def effort_exact(spec: Spec, vals: dict, obs: dict, info: dict) -> list[str]:
         if not spec.is_leaf(t) or t.effort is None:
             continue
         o = obs["tasks"][tid]
-        cands = [c for c in (t.alloc, t.alt) if c]
+        cands = [c for c in [t.alloc] + [[a] for a in t.alt] if c]   # the primary allocation (a team if several), or ONE of the alternatives
         booked_sets = []
         for cand in cands:
             ents = [task_entries(obs, _leaf_path(spec, r), tid) for r in cand]
@@ -346,7 +346,7 @@ def slot_position(spec: Spec, vals: dict, obs: dict, info: dict, slot: int, tid:
             if u == tid:
                 break
             ut = spec.task(u)
-            u_members = [_leaf_path(spec, r) for r in (ut.alloc if any(task_entries(obs, _leaf_path(spec, r), u) for r in ut.alloc) else ut.alt)]
+            u_members = [_leaf_path(spec, r) for r in (ut.alloc if any(task_entries(obs, _leaf_path(spec, r), u) for r in ut.alloc) else [a for a in ut.alt if task_entries(obs, _leaf_path(spec, a), u)])]
             start_u = slot_position(spec, vals, obs, info, slot, u, u_members, memo)
             end_u = start_u + secs_u
             if end_u > p_m:
